@@ -573,7 +573,7 @@ BpCall(s) ==
        \/ snd.ph = "wait" /\ snd.cur = s
     /\ NeedsHandler(s)
     /\ snd' = [snd EXCEPT !.ph = "call", !.cur = s, !.k = @ + 1, !.blk = @ \cup {s}]
-    /\ out' = [a |-> "bp", s |-> s, k |-> snd.k]
+    /\ out' = [a |-> "bp", s |-> s, ri |-> snd.k]
     /\ UNCHANGED <<cfg, pst, pn, pdeg, pdirty, segb, sst, sbuf, sreq, sdeg, sdirty, conn, occ, hist, loans, ck, nextid,
                    ghostvars>>
 
